@@ -105,6 +105,17 @@ def check(run, ctx):
                         else:
                             run.finding(A3, f"{f.qual.replace('src.', '', 1)}", f"config-arg:{norm(k.value)}", f"Orchestrator(config={norm(k.value)}): the loaded configuration is transformed on the way in, so an explicitly given empty configuration (empty --config/config_file) becomes 'absent' and the project root's own file is auto-discovered instead - the CLI, which assigns orchestrator.config, keeps the empty one", f"{f.module.rel}:{n.lineno}")
     run.require(n_pass >= 2, "Orchestrator(config=...) call sites not found (library entry point and parallel worker)")
+    # the library lints the target under the spelling it was given, like the CLI (which lints Path(arg)): no resolve()/absolute()
+    ll = repo.func("src.api.Linter.lint")
+    from ..util import expand_locals as _xl
+    handed = next((c_ for c_ in ast.walk(ll.node) if is_call_named(c_, lib.name) and c_.args), None)
+    run.require(handed is not None, f"Linter.lint no longer hands the target to {lib.name}")
+    target_e = _xl(ll.node, handed.args[0])
+    rewr = [call_name(x) for x in ast.walk(target_e) if isinstance(x, ast.Call) and call_name(x) in ("resolve", "absolute", "realpath", "abspath", "expanduser", "normpath", "relative_to")]
+    if rewr:
+        run.finding(A3, "Linter.lint", f"target-rewritten:{rewr[0]}", f"Linter.lint hands `{norm(target_e)[:70]}` to the orchestrator: the target is re-spelled ({rewr[0]}) before linting, so ignore patterns relative to a project_root given in another spelling, and the reported file_path, differ from what the CLI does with the same argument", ll.loc)
+    else:
+        run.ok(A3, "Linter.lint target", f"linted as given: {norm(target_e)[:60]}")
     cmds = clifacts.commands(repo)
     nofilter = sorted({c.name for c in cmds if not c.preds})
     (run.ok(A3, "CLI filters", f"{len(cmds)} commands filter by rule id") if not nofilter else run.finding(A3, "cli", f"unfiltered:{nofilter}", f"commands {nofilter} do not filter by rule id", "src/cli/linters"))
